@@ -318,8 +318,14 @@ fn gen_parse(rng: &mut Rng) -> Sexp {
             case(cmd("parse", &["theory"]), mix(rng, p, folrt::fuzz_theory))
         }
         2 => {
-            let p = folrt::specification(rng).to_string();
-            case(cmd("parse", &["specification"]), mix(rng, p, folrt::fuzz_spec))
+            // one text in eight is a user guide: `parse --as specification` must refuse its declarations
+            let t = if rng.chance(12) {
+                cap_digit_runs(&folrt::user_guide(rng).to_string())
+            } else {
+                let p = folrt::specification(rng).to_string();
+                mix(rng, p, folrt::fuzz_spec)
+            };
+            case(cmd("parse", &["specification"]), t)
         }
         _ => {
             let p = folrt::user_guide(rng).to_string();
